@@ -191,6 +191,6 @@ def _enum(tier):
 CLAUSES = [
     Clause('three-node-graphs', check_case, kind='exhaustive', enumerate=_enum,
            space='all 3-node graphs over 6 node variants x all 2^9 edge sets x all non-empty compromise subsets (quick tier: every 6th graph)'),
-    Clause('random', check_case, kind='random', strategy=cases, budget={'quick': 12000, 'thorough': 120000}),
-    Clause('generated-graphs', check_case, kind='random', strategy=generated_cases, budget={'quick': 1500, 'thorough': 15000}),
+    Clause('random', check_case, kind='random', strategy=cases, budget={'quick': 12000, 'thorough': 360000}),
+    Clause('generated-graphs', check_case, kind='random', strategy=generated_cases, budget={'quick': 1500, 'thorough': 45000}),
 ]
